@@ -7,6 +7,7 @@
 #include <stdio.h>
 #include <stdlib.h>
 #include <string.h>
+#include <sys/select.h>
 
 #include "strophe.h"
 #include "common.h"
@@ -46,6 +47,9 @@ int hsplit(char *line, char **tok, int max);
 extern uint64_t hclock_ms;
 extern int hselect_mode;
 extern long hselect_calls;
+/* if non-NULL, __wrap_select delegates to this function (engine-specific readiness script);
+   NULL (default) keeps the hselect_mode behaviour */
+extern int (*hselect_hook)(int nfds, fd_set *rfds, fd_set *wfds, fd_set *efds, struct timeval *tv);
 
 typedef int (*engine_fn)(FILE *in, FILE *out);
 
